@@ -67,10 +67,12 @@ Record NormCore (G : GroupOps RS) (cast : list R -> list R) (eps : R) : Type := 
   nc_scale : forall t s, nc_twf t -> nc_twf (@vscale_r RS t s);
   nc_zero : nc_twf (@vzero RS (g_dof G));
   nc_cast : forall X, nc_inv X -> nc_inv (cast X);
-  nc_trandom : forall u, nc_twf u -> nc_twf (g_trandom G u);
+  nc_draw : list R -> Prop;              (* the draws LieGroup::Random() consumes are in range (UnitRandom's u1 in [0,1]) *)
+  nc_draw_zero : nc_draw (@vzero RS (g_dof G));
+  nc_random : forall u, nc_twf u -> nc_draw u -> nc_inv (g_random G u);
   nc_accept : forall X, nc_inv X -> g_assert_ok G X = true
 }.
-Arguments nc_inv {G cast eps}. Arguments nc_twf {G cast eps}.
+Arguments nc_inv {G cast eps}. Arguments nc_twf {G cast eps}. Arguments nc_draw {G cast eps}.
 
 Section History.
 Variable G : GroupOps RS.
@@ -79,11 +81,14 @@ Variable eps : R.
 Variable N : NormCore G cast eps.
 Local Notation Inv := (nc_inv N).
 Local Notation Twf := (nc_twf N).
+Local Notation Draw := (nc_draw N).
 
 Lemma Forall_nth_default {A} (P : A -> Prop) (l : list A) (d : A) n : Forall P l -> P d -> P (nth n l d).
 Proof. intros Hl Hd. revert n. induction Hl as [|x l Hx Hl IH]; intros [|n]; cbn [nth]; auto. Qed.
 Lemma nth_t_twf ts s : Forall Twf ts -> Twf (nth_t G ts s).
 Proof. intros H. unfold nth_t. apply Forall_nth_default; [exact H|apply nc_zero]. Qed.
+Lemma nth_t_draw ts s : Forall Draw ts -> Draw (nth_t G ts s).
+Proof. intros H. unfold nth_t. apply Forall_nth_default; [exact H|apply nc_draw_zero]. Qed.
 
 Lemma slerp_inv X Y u : Inv X -> Inv Y -> Inv (match interpolate_slerp G X Y u with Ok Z => Z | _ => X end).
 Proof.
@@ -92,10 +97,10 @@ Proof.
   apply nc_compose; [apply nc_inverse; exact HX | exact HY].
 Qed.
 
-Theorem hstep_inv ts us X Y digit s : Forall Twf ts -> Inv X -> Inv Y ->
+Theorem hstep_inv ts us X Y digit s : Forall Twf ts -> Forall Draw ts -> Inv X -> Inv Y ->
   Inv (fst (hstep G cast ts us (X, Y) digit s)) /\ Inv (snd (hstep G cast ts us (X, Y) digit s)).
 Proof.
-  intros Hts HX HY. pose proof (nth_t_twf ts s Hts) as Ht.
+  intros Hts Hds HX HY. pose proof (nth_t_twf ts s Hts) as Ht. pose proof (nth_t_draw ts s Hds) as Hd.
   unfold hstep. destruct digit as [|p|p]; [split; assumption| |split; assumption].
   do 4 (try match goal with q : positive |- _ => destruct q as [q|q|] end); cbn [fst snd]; split; try assumption; unfold rplus_v, lplus_v.
   all: try (apply nc_compose; try assumption).
@@ -103,28 +108,28 @@ Proof.
   all: try (apply nc_inverse; assumption).
   all: try (apply nc_cast; assumption).
   all: try (apply slerp_inv; assumption).
-  all: try (apply nc_trandom; assumption).
+  all: try (apply nc_random; assumption).
 Qed.
 
 (* every history, of any length: the bound eps does not depend on the number of steps *)
-Theorem hrun_inv fuel ts us code s X Y : Forall Twf ts -> Inv X -> Inv Y ->
+Theorem hrun_inv fuel ts us code s X Y : Forall Twf ts -> Forall Draw ts -> Inv X -> Inv Y ->
   Inv (fst (hrun G cast fuel ts us code s (X, Y))) /\ Inv (snd (hrun G cast fuel ts us code s (X, Y))).
 Proof.
-  intros Hts. revert code s X Y. induction fuel as [|fuel IH]; intros code s X Y HX HY; cbn [hrun].
+  intros Hts Hds. revert code s X Y. induction fuel as [|fuel IH]; intros code s X Y HX HY; cbn [hrun].
   - split; assumption.
   - destruct (Z.eqb code 0); [split; assumption|].
-    destruct (hstep_inv ts us X Y (code mod 16) s Hts HX HY) as [H1 H2].
+    destruct (hstep_inv ts us X Y (code mod 16) s Hts Hds HX HY) as [H1 H2].
     destruct (hstep G cast ts us (X, Y) (code mod 16) s) as [X' Y'] eqn:E. cbn [fst snd] in *. apply IH; assumption.
 Qed.
 
 (* the same statement over an explicit list of steps (no encoding, no fuel) *)
-Theorem history_inv ts us (ops : list (Z * nat)) X Y : Forall Twf ts -> Inv X -> Inv Y ->
+Theorem history_inv ts us (ops : list (Z * nat)) X Y : Forall Twf ts -> Forall Draw ts -> Inv X -> Inv Y ->
   let st := fold_left (fun st o => hstep G cast ts us st (fst o) (snd o)) ops (X, Y) in
   Inv (fst st) /\ Inv (snd st) /\ g_assert_ok G (fst st) = true /\ g_assert_ok G (snd st) = true.
 Proof.
-  intros Hts. revert X Y. induction ops as [|o ops IH]; intros X Y HX HY; cbn [fold_left].
+  intros Hts Hds. revert X Y. induction ops as [|o ops IH]; intros X Y HX HY; cbn [fold_left].
   - repeat split; try assumption; apply (nc_accept _ _ _ N); assumption.
-  - destruct (hstep_inv ts us X Y (fst o) (snd o) Hts HX HY) as [H1 H2].
+  - destruct (hstep_inv ts us X Y (fst o) (snd o) Hts Hds HX HY) as [H1 H2].
     destruct (hstep G cast ts us (X, Y) (fst o) (snd o)) as [X' Y'] eqn:E. cbn [fst snd] in *. apply IH; assumption.
 Qed.
 End History.
